@@ -1,14 +1,74 @@
-(** C05 — no input bytes can crash, hang or exhaust any decoding entry point. *)
+(** C05 — no input bytes can crash, hang or exhaust any decoding entry point.
+    Theorems over the demuxer model (mux/demux.go + mux/chunk.go); the codec
+    loops are covered by the malformed-stream run of the harness (a test). *)
 From Coq Require Import List ZArith Lia.
-From Webp Require Import Base.Res Base.Bytes Riff.DemuxModel.
+From Webp Require Import Base.Res Base.Bytes Riff.DemuxModel Riff.DemuxTotal.
 From WebpGen Require Consts.
 Import ListNotations.
 Open Scope Z_scope.
 
+(** With the patch work/patches/c05-demux-riff-size.diff: for every byte string
+    NewDemuxer neither panics nor exhausts its fuel (each loop iteration consumes
+    >= 8 bytes), and a successful result holds only sub-slices of the input
+    (frame bitstreams, alpha payloads, metadata, chunk payloads), between 1 and
+    maxFrames frames with non-negative offsets, and metadata <= maxMetadataSize. *)
+Theorem C05_demux_total_and_well_formed : forall bs, bytes_ok bs ->
+  match parse true bs with
+  | Ok d => dwf bs d /\ 1 <= len (d_frames d)
+  | Err e => e <> E_fuel
+  | Panic => False
+  end.
+Proof. exact parse_spec. Qed.
+Print Assumptions C05_demux_total_and_well_formed.
+
+Theorem C05_demux_total : forall bs, bytes_ok bs -> parse true bs <> Panic.
+Proof. exact demux_total. Qed.
+Print Assumptions C05_demux_total.
+
+Theorem C05_demux_fuel_sufficient : forall bs, bytes_ok bs -> parse true bs <> Err E_fuel.
+Proof. exact demux_fuel_sufficient. Qed.
+Print Assumptions C05_demux_fuel_sufficient.
+
+(** The pinned code (no patch): [demux_total] is false. *)
 Theorem C05_demux_panics_refuted :
-  exists bs, bytes_ok bs /\ parse false bs = Panic.
-Proof.
-  exists [82;73;70;70; 2;0;0;0; 87;69;66;80; 86;80;56;32].
-  split; [repeat constructor; unfold is_byte; lia | vm_compute; reflexivity].
-Qed.
+  exists bs, bytes_ok bs /\ pinned_parse bs = Panic.
+Proof. exists demux_witness. exact demux_panics_refuted. Qed.
 Print Assumptions C05_demux_panics_refuted.
+
+(** ... and the patch changes nothing else: wherever the pinned code does not
+    panic it returns what the patched code returns. *)
+Theorem C05_patch_is_conservative : forall bs, pinned_parse bs <> Panic -> pinned_parse bs = parse true bs.
+Proof. exact parse_pinned_agrees. Qed.
+Print Assumptions C05_patch_is_conservative.
+
+Theorem C05_frame_total : forall d i, frame d i <> Panic.
+Proof. exact frame_total. Qed.
+Print Assumptions C05_frame_total.
+
+Theorem C05_frame_ok_iff_in_range : forall d i, (exists fi, frame d i = Ok fi) <-> 0 <= i < len (d_frames d).
+Proof. exact frame_ok_iff. Qed.
+Print Assumptions C05_frame_ok_iff_in_range.
+
+Theorem C05_get_chunk_total : forall d id, get_chunk d id <> Panic.
+Proof. exact get_chunk_total. Qed.
+Print Assumptions C05_get_chunk_total.
+
+Theorem C05_get_chunk_in_bounds : forall top d id x, dwf top d -> get_chunk d id = Ok x -> infix x top.
+Proof. exact get_chunk_in_bounds. Qed.
+Print Assumptions C05_get_chunk_in_bounds.
+
+(** The limits the model uses are the constants of the current source. *)
+Theorem C05_limits_match_source :
+  WebpGen.Consts.mux_maxFrames = maxFrames /\ WebpGen.Consts.mux_maxMetadataSize = maxMetadataSize /\
+  WebpGen.Consts.container_MaxChunkPayload = MaxChunkPayload /\ WebpGen.Consts.container_MaxImageArea = MaxImageArea /\
+  WebpGen.Consts.container_ChunkHeaderSize = ChunkHeaderSize /\ WebpGen.Consts.container_RIFFHeaderSize = RIFFHeaderSize /\
+  WebpGen.Consts.container_ANMFChunkSize = ANMFChunkSize /\ WebpGen.Consts.container_ANIMChunkSize = ANIMChunkSize /\
+  WebpGen.Consts.container_VP8XChunkSize = VP8XChunkSize /\
+  WebpGen.Consts.mux_FourCCRIFF = FCC_RIFF /\ WebpGen.Consts.mux_FourCCWEBP = FCC_WEBP /\
+  WebpGen.Consts.mux_FourCCVP8 = FCC_VP8 /\ WebpGen.Consts.mux_FourCCVP8L = FCC_VP8L /\
+  WebpGen.Consts.mux_FourCCVP8X = FCC_VP8X /\ WebpGen.Consts.mux_FourCCALPH = FCC_ALPH /\
+  WebpGen.Consts.mux_FourCCANIM = FCC_ANIM /\ WebpGen.Consts.mux_FourCCANMF = FCC_ANMF /\
+  WebpGen.Consts.mux_FourCCICCP = FCC_ICCP /\ WebpGen.Consts.mux_FourCCEXIF = FCC_EXIF /\
+  WebpGen.Consts.mux_FourCCXMP = FCC_XMP.
+Proof. repeat split; reflexivity. Qed.
+Print Assumptions C05_limits_match_source.
